@@ -1,18 +1,10 @@
 //! Verification hooks for property C18 (compiled only with `--cfg linfa_verif`).
 //!
-//! `PcaParams::fit` calls the external truncated SVD inline; the correspondence check needs
-//! the raw `(sigma, v_t)` that call returns (before the `1e-8` floor and the whitening scale),
-//! so this wrapper repeats exactly that call: same solver, order and seed.
-use linfa_linalg::{lobpcg::TruncatedSvd, Order};
+//! Thin wrapper around the private decomposition step of `PcaParams::fit`: the correspondence
+//! check needs the raw `(sigma, v_t)` it returns (before the `1e-8` floor and the whitening scale).
 use ndarray::{Array1, Array2};
-use rand::{prelude::SmallRng, SeedableRng};
 
-/// `TruncatedSvd::new_with_rng(x, Order::Largest, SmallRng::seed_from_u64(42)).decompose(k)`
-/// followed by `values_vectors()`; `x` is the already centred record matrix.
+/// `pca::leading_svd(x, k)`; `x` is the already centred record matrix.
 pub fn truncated_svd_largest(x: Array2<f64>, k: usize) -> Result<(Array1<f64>, Array2<f64>), String> {
-    let result = TruncatedSvd::new_with_rng(x, Order::Largest, SmallRng::seed_from_u64(42))
-        .decompose(k)
-        .map_err(|e| e.to_string())?;
-    let (_, sigma, v_t) = result.values_vectors();
-    Ok((sigma, v_t))
+    crate::pca::leading_svd(x, k).map_err(|e| e.to_string())
 }
